@@ -297,6 +297,6 @@ func TestC06(t *testing.T) {
 		Assumptions: []string{"ids are disjoint from all field values (otherwise an occurrence of the id bytes would be ambiguous)",
 			"set indexes are over string sets; an entity has child data in at most one child store of its parent"},
 		Gen: genC06, Run: runC06,
-		QuickChecks: 400, ThoroughFactor: 20,
+		QuickChecks: 800, ThoroughFactor: 10,
 	})
 }
